@@ -54,6 +54,13 @@ func (r *SimRand) Read(p []byte) (int, error) {
 	return n, err
 }
 
+// tempErr is a failure that describes itself as temporary, as errors of network-backed sources do.
+type tempErr struct{}
+
+func (tempErr) Error() string   { return "bsim: simulated entropy source temporarily unavailable" }
+func (tempErr) Temporary() bool { return true }
+func (tempErr) Timeout() bool   { return true }
+
 func (r *SimRand) read(p []byte) (int, error) {
 	st := ReadStep{Kind: "all"}
 	if len(r.script) > 0 {
@@ -72,6 +79,13 @@ func (r *SimRand) read(p []byte) (int, error) {
 	case "ueof":
 		r.Failed = true
 		return 0, io.ErrUnexpectedEOF
+	case "terr": // an error that calls itself temporary (and stays): a source behind a network
+		r.Failed = true
+		r.script = append([]ReadStep{{Kind: "terr"}}, r.script...)
+		return 0, tempErr{}
+	case "terr1": // ... or that goes away after one failure (what came before it is not handed out again)
+		r.Failed = true
+		return 0, tempErr{}
 	}
 	n := len(p)
 	if st.Kind == "short" && st.N < n {
